@@ -1121,7 +1121,7 @@ def run(tier, seed):
     stats.exhaustive['one-damaged-line'] = ('histories of shapes (2),(3),(4),(2,2),(3,1),(1,3) x every non-first record x '
                                             'every damage kind (6 payload, 6 cut-payload, 5 bad-timestamp, 8 cut-timestamp, '
                                             'comment, blank) x schedule {record-by-record, one jump}')
-    n = 7000 if thorough else 220
+    n = 5000 if thorough else 220
     shards = 32 if thorough else 16
     common.parallel(shard_random, [(seed, i, n) for i in range(shards)], stats=stats)
     # shrink every new signature Hypothesis met, one worker per signature, from the lowest shard seed that met it
